@@ -320,10 +320,15 @@ class Ctx(object):
         if self.sym:
             self.eng.notes[key] = val
 
-    def done(self, ok, obs=None):
-        """final verdict of a harness; records the observation for differential comparison"""
+    def done(self, ok, obs=None, inplace=False):
+        """final verdict of a harness; records the observation for differential comparison.
+        Unless the template performs an in-place operation, the verdict includes that every operand
+        built by ctx.mk still equals its construction inputs (an operation that corrupts its operand
+        makes the next result on that operand wrong)."""
         if obs is not None:
             self.obs = obs
+        if not inplace and ok is not False:
+            ok = self.AND(ok, self.operands_unchanged())
         if self.sym:
             self.eng.obs = self.obs
         return ok
